@@ -286,14 +286,17 @@ CL_END = "restored-internal-data-equals-uninterrupted-at-end-of-history"
 CL_TWICE = "nothing-suggested-twice-because-of-restore"
 CL_SKIP = "nothing-skipped-because-of-restore"
 CL_UNDISTURBED = "taking-a-snapshot-does-not-disturb-the-running-object"
+CL_DILLOBJ = "dill-pickled-searcher-object-suggestions-equal-uninterrupted[GPFIFOSearcher and variants]"
 CL_VARIANTS = "restored-searcher-suggestions-equal-uninterrupted[ConstrainedGPFIFOSearcher, CostAwareGPFIFOSearcher]"
 # two situations in which the unchanged library is known to deviate get their own clause, so that everything else keeps
-# being checked strictly (see the module doc string of the report): (a) the surrogate model's own generator (fantasy
-# samples for pending evaluations, restarts of the fit) is not part of the snapshot, (b) a searcher restored after ALL
-# entries of restrict_configurations have been suggested
+# being checked strictly: (a) the surrogate model's own generator (fantasy samples for pending evaluations, restarts
+# of the fit) is not part of the snapshot, (b) a searcher restored after ALL entries of restrict_configurations have
+# been suggested raises instead of returning None, (c) clone_from_state drops the down-sampling of the observations
+# (max_size_data_for_model, default 500), which matters once there are more observations than that
 CL_ESTRNG = "restored-searcher-suggestions-equal-uninterrupted[surrogate model's own generator advanced before the snapshot]"
 CL_EXHAUSTED = "restored-searcher-suggestions-equal-uninterrupted[all of restrict_configurations suggested before the snapshot]"
-C16_CLAUSES = [CL_FIFO, CL_MF, CL_DILL, CL_VARIANTS, CL_DATA, CL_END, CL_TWICE, CL_SKIP, CL_UNDISTURBED, CL_ESTRNG, CL_EXHAUSTED]
+CL_SUBSAMPLE = "restored-searcher-suggestions-equal-uninterrupted[more observations than max_size_data_for_model]"
+C16_CLAUSES = [CL_FIFO, CL_MF, CL_DILL, CL_DILLOBJ, CL_VARIANTS, CL_DATA, CL_END, CL_TWICE, CL_SKIP, CL_UNDISTURBED, CL_ESTRNG, CL_EXHAUSTED, CL_SUBSAMPLE]
 
 GP_CHEAP = dict(opt_nstarts=1, opt_maxiter=5, num_init_candidates=15, debug_log=False)
 
@@ -347,6 +350,7 @@ def _transfer(state, mode):
 
 
 MODES = ("pickle", "as-handed-out", "dill")
+MODES_FIFO = MODES + ("dill(searcher object)",)
 
 
 # -- GPFIFOSearcher, driven directly -----------------------------------------------------------------------------------
@@ -447,7 +451,7 @@ def _fifo_scenarios(tier, seed):
                 keep.append(out[i])
             else:
                 rest.append(out[i])
-        out = keep + rest[:6]
+        out = keep + rest[:16]
     return out
 
 
@@ -514,15 +518,22 @@ def _fifo_restore_runs(book, sc, sd, positions, mode_of, samples, est_clause=Fal
         if S.trace != U.trace[:nsug]:
             raise RuntimeError("twin prefix differs from the uninterrupted run (not reproducible): %s" % sc["name"])
         at_snapshot = _state_canon(S.s)
-        if _all_allowed_used(S.s, sc["restrict"], sc["dup"]):
+        if mode.startswith("dill("):
+            clause = CL_DILLOBJ  # the whole object graph is copied: nothing is left to the freshly constructed searcher
+        elif _all_allowed_used(S.s, sc["restrict"], sc["dup"]):
             clause = CL_EXHAUSTED
         elif est_clause and (fresh_gen is None or _estimator_generator_state(S.s) != fresh_gen):
             clause = CL_ESTRNG
         else:
-            clause = base
+            clause = sc.get("own_clause", base)
         try:
-            state = _transfer(S.s.get_state(), mode)
-            R = make().clone_from_state(state)
+            if clause == CL_DILLOBJ:
+                import dill
+
+                R = dill.loads(dill.dumps(S.s))
+            else:
+                state = _transfer(S.s.get_state(), mode)
+                R = make().clone_from_state(state)
             restored = _state_canon(R)
             D = _FifoDriver(R, S.cfg).run(events[k:])
         except Exception as e:
@@ -535,7 +546,7 @@ def _fifo_restore_runs(book, sc, sd, positions, mode_of, samples, est_clause=Fal
         if same:
             end = _state_canon(R)
             book.check(CL_END, end == u_end, difference=_state_diff(u_end, end), **where)
-        if clause == base:
+        if clause in (base, CL_DILLOBJ):
             _check_twice_and_skipped(book, U.trace, S.trace, D.trace, where)
 
 
@@ -546,16 +557,20 @@ def _fifo_model_scenarios(tier, seed):
     cont = {"x": uniform(0.0, 1.0), "y": uniform(0.0, 1.0)}
     tiny = {"a": choice(["p", "q"]), "b": randint(0, 1)}
     pool = [{"x": float(round(a, 3)), "y": float(round(b, 3))} for a, b in rs.rand(10, 2)]
-    mb = dict(num_init_random=2, opt_skip_init_length=3, opt_skip_period=2)
+    # opt_skip_period=2: from 2 observations on every second fit is skipped, the surrogate then works with the
+    # hyper-parameters of the previous fit (both the counter and the hyper-parameters are part of the snapshot)
+    mb = dict(num_init_random=2, opt_skip_init_length=2, opt_skip_period=2)
     out = [
         dict(name="ConstrainedGPFIFOSearcher model-based, sequential, continuous space", cls="constrained", space=cont, restrict=None, dup=False, p2e=None, fails=(), delay=0, n=5, kw=dict(num_init_random=2)),
         dict(name="CostAwareGPFIFOSearcher model-based, sequential, continuous space", cls="cost", space=cont, restrict=None, dup=False, p2e=[], fails=(1,), delay=0, n=5, kw=dict(num_init_random=2)),
         dict(name="GPFIFOSearcher model-based, sequential, continuous space, mode=max, acquisition function as initial scoring", space=cont, restrict=None, dup=False, p2e=None, fails=(), delay=0, n=6, kw=dict(num_init_random=2, mode="max", initial_scoring="acq_func")),
         # sequential histories: no evaluation is pending when the model is used, the surrogate's own generator is idle
-        dict(name="GPFIFOSearcher model-based, sequential, continuous space, opt_skip_period=2", space=cont, restrict=None, dup=False, p2e=None, fails=(1,), delay=0, n=6, kw=mb),
+        dict(name="GPFIFOSearcher model-based, sequential, continuous space, opt_skip_period=2", space=cont, restrict=None, dup=False, p2e=None, fails=(), delay=0, n=8, kw=mb),
         dict(name="GPFIFOSearcher model-based, sequential, 4 configurations, allow_duplicates=True", space=tiny, restrict=None, dup=True, p2e=[], fails=(), delay=0, n=8, kw=mb),
         dict(name="GPFIFOSearcher model-based, sequential, 10 allowed configurations", space=cont, restrict=pool, dup=False, p2e=[], fails=(), delay=0, n=6, kw=mb),
         dict(name="GPFIFOSearcher model-based, sequential, 10 allowed configurations, allow_duplicates=True", space=cont, restrict=pool, dup=True, p2e=[dict(pool[3])], fails=(2,), delay=0, n=6, kw=mb),
+        # the surrogate is fitted to a random subset of at most 4 observations (the default limit of 500 made small)
+        dict(name="GPFIFOSearcher model-based, sequential, continuous space, max_size_data_for_model=4", space=cont, restrict=None, dup=False, p2e=None, fails=(), delay=0, n=8, kw=dict(num_init_random=2, max_size_data_for_model=4), own_clause=CL_SUBSAMPLE),
         # two trials running: evaluations are pending when the model is used (fantasies from the surrogate's generator)
         dict(name="GPFIFOSearcher model-based, 2 running, continuous space", space=cont, restrict=None, dup=False, p2e=None, fails=(), delay=1, n=6, kw=mb),
     ]
@@ -738,7 +753,8 @@ def monitor_restore_gp(tier="quick", seed=0):
         fs = _fifo_scenarios(tier, seed)
         for i, sc in enumerate(fs):
             events = _fifo_events(sc["n"], sc["delay"], set(sc["fails"]))
-            _fifo_restore_runs(book, sc, 7 + 13 * seed + i, range(len(events) + 1), lambda k, i=i: MODES[(i + k) % 3], samples)
+            for rep_ in range(1 if quick else 2):
+                _fifo_restore_runs(book, sc, 7 + 13 * seed + i + 1000 * rep_, range(len(events) + 1), lambda k, i=i, r=rep_: MODES_FIFO[(i + k + r) % 4], samples)
             distinct += 1
         t1 = time.time()
         # (2) GPFIFOSearcher with real model fits
@@ -747,10 +763,10 @@ def monitor_restore_gp(tier="quick", seed=0):
             events = _fifo_events(sc["n"], sc["delay"], set(sc["fails"]))
             if quick:
                 # before the first suggestion, in the random phase, just before and after the first model-based suggestion, later
-                pos = sorted({0, 3, 4, 6, 8 + (seed + i) % 3})
+                pos = sorted({0, 3, 4, 6, 8 + (seed + i) % 3, 10})
             else:
                 pos = range(len(events) + 1)
-            _fifo_restore_runs(book, sc, 31 + 17 * seed + i, pos, lambda k, i=i: MODES[(i + k) % 3], samples, est_clause=True)
+            _fifo_restore_runs(book, sc, 31 + 17 * seed + i, pos, lambda k, i=i: MODES_FIFO[(i + k) % 4], samples, est_clause=True)
             distinct += 1
         t2 = time.time()
         # (3) multi-fidelity searcher inside the asynchronous Hyperband scheduler
@@ -764,7 +780,7 @@ def monitor_restore_gp(tier="quick", seed=0):
             else:
 
                 def pos(first_adv, i=i, steps=sc["steps"]):
-                    return list(range(0, steps)) if not quick else sorted({0} | set(range((seed + i) % 3, steps, 3)))
+                    return list(range(0, steps)) if not quick else sorted({0} | set(range((seed + i) % 2, steps, 2)))
 
             def variants(k, i=i, model=sc["model"]):
                 v = ["searcher-state/%s" % MODES[(i + k) % 3]]
@@ -783,8 +799,7 @@ def monitor_restore_gp(tier="quick", seed=0):
         "clauses": list(C16_CLAUSES),
         "violations": book.violations,
         "samples": samples[:4],
-        "checks_per_clause": book.checks,
-        "summary": "%d GPFIFOSearcher random-phase scenarios (restrict_configurations x allow_duplicates x points_to_evaluate x failures x running trials) with a snapshot at every event prefix, %d with model fits, %d HyperbandScheduler(bayesopt) scenarios (stopping / promotion, <= 34 steps, 3 workers); restore into a fresh object from the state as handed out / pickled / dilled, and dill of the whole scheduler; %.0f+%.0f+%.0f s" % (len(fs), len(ms), len(mf), t1 - t0, t2 - t1, t3 - t2),
+        "summary": "%d GPFIFOSearcher / constrained / cost-aware random-phase scenarios (restrict_configurations x allow_duplicates x points_to_evaluate x failures x running trials) with a snapshot at every event prefix, %d with model fits, %d HyperbandScheduler(bayesopt) scenarios (stopping / promotion, <= 34 steps, 3 workers); restore into a fresh object from the state as handed out / pickled / dilled, and dill of the whole searcher / scheduler; %d checks in the least exercised clause; %.0f+%.0f+%.0f s" % (len(fs), len(ms), len(mf), min(book.checks.values()), t1 - t0, t2 - t1, t3 - t2),
     }
 
 
@@ -845,6 +860,64 @@ def _scheduler_component(build, steps, workers=3, fails=(), **kw):
 
     def run(seed_kw, P, decoy_kw):
         trace, _ = _run_async(lambda: build(**seed_kw()), steps, workers=workers, fails=set(fails), perturb=P, decoy=(lambda: build(**decoy_kw())) if decoy_kw is not None else None, **kw)
+        return trace
+
+    return run
+
+
+def _pbt_component(build, population, rounds, max_t):
+    """round-robin driver: all members of the population report once per round (so that several trials are scored at
+    the same time and the upper quantile has more than one member); a stopped trial is replaced at once"""
+    from datetime import datetime
+
+    from syne_tune.backend.trial_status import Trial
+
+    def score(cfg, epoch):
+        x = float(cfg["x"])
+        return abs(np.log10(x) + 2.4) / 3.0 + 0.002 * float(cfg["n"]) + 0.1 * float(cfg["w"]) + 0.01 * 0.8**epoch
+
+    def run(seed_kw, P, decoy_kw):
+        P()
+        sched = build(**seed_kw())
+        d = None
+        if decoy_kw is not None:
+            P()
+            d = build(**decoy_kw())
+        trace, running, next_id = [], {}, [0]
+
+        def start():
+            if d is not None and next_id[0] < 4:
+                P()
+                ds = d.suggest(next_id[0])
+                d.on_trial_add(Trial(trial_id=next_id[0], config=ds.config, creation_time=datetime(2020, 1, 1)))
+            P()
+            sug = sched.suggest(next_id[0])
+            trace.append(["start", next_id[0], _ckey(sug.config), sug.checkpoint_trial_id])
+            t = Trial(trial_id=next_id[0], config=sug.config, creation_time=datetime(2020, 1, 1))
+            P()
+            sched.on_trial_add(t)
+            running[next_id[0]] = [t, 0]
+            next_id[0] += 1
+
+        for _ in range(population):
+            start()
+        for _ in range(rounds):
+            for tid in sorted(running):
+                t, ep = running[tid]
+                ep += 1
+                running[tid][1] = ep
+                P()
+                dec = sched.on_trial_result(t, {"epoch": ep, "loss": score(t.config, ep)})
+                trace.append(["result", tid, ep, str(dec)])
+                if dec != "CONTINUE":
+                    del running[tid]
+                    P()
+                    sched.on_trial_remove(t)
+                    start()
+        sources = [e[3] for e in trace if e[0] == "start" and e[3] is not None]
+        if len(sources) < 5 or len(set(sources)) < 3:
+            # (with a single member in the upper quantile the choice of the clone source would not be random at all)
+            raise RuntimeError("PBT workload not informative: %d exploit steps from %d different source trials" % (len(sources), len(set(sources))))
         return trace
 
     return run
@@ -974,10 +1047,6 @@ def _c11_components(tier, seed):
     except ImportError:
         pass
     try:
-        from syne_tune.optimizer.schedulers.multiobjective.linear_scalarizer import LinearScalarizationPriority  # noqa: F401
-    except ImportError:
-        LinearScalarizationPriority = None
-    try:
         from syne_tune.optimizer.schedulers.multiobjective.multi_objective_regularized_evolution import MultiObjectiveRegularizedEvolution
         from syne_tune.optimizer.schedulers.multiobjective.multiobjective_priority import LinearScalarizationPriority as _LSP
 
@@ -994,11 +1063,11 @@ def _c11_components(tier, seed):
     pbt_space = {"x": loguniform(1e-3, 1.0), "n": randint(1, 20), "w": finrange(0.1, 0.9, 5), "c": choice(["a", "b", "c"])}
 
     def pbt(random_seed):
-        s = PopulationBasedTraining(dict(pbt_space), metric="loss", mode="min", resource_attr="epoch", max_t=9, population_size=8, perturbation_interval=1, quantile_fraction=0.4, resample_probability=0.3, random_seed=random_seed)
+        s = PopulationBasedTraining(dict(pbt_space), metric="loss", mode="min", resource_attr="epoch", max_t=12, population_size=8, perturbation_interval=1, quantile_fraction=0.4, resample_probability=0.3, random_seed=random_seed)
         s.set_time_keeper(_tk())
         return s
 
-    comps["PopulationBasedTraining(population 8, quantile 0.4)"] = (("int",), _scheduler_component(pbt, 90 if quick else 200, workers=8))
+    comps["PopulationBasedTraining(population 8, quantile 0.4)"] = (("int",), _pbt_component(pbt, 8, 10 if quick else 24, 12))
 
     dehb_space = {"x": uniform(0.0, 1.0), "y": uniform(-1.0, 1.0), "n": randint(1, 20), "epochs": 9}
 
@@ -1029,16 +1098,21 @@ def monitor_seeded_searchers(tier="quick", seed=0, _child=False):
             clauses.append(CL11_DIFF % name)
         book = _Book(clauses)
         samples, traces = [], {}
-        sd = 5 + 11 * seed
+        base_seeds = [5 + 11 * seed + 977 * r for r in range(2 if tier == "quick" else 4)]
         for name, (modes, run) in comps.items():
-            for mode in modes:
-                key = "%s/%s" % (name, mode)
-                a = run(_seed_kw(mode, sd), _Perturb(5000 + seed), None)
+            for mode, sd in [(m, b) for b in base_seeds for m in modes]:
+                key = "%s/%s/%d" % (name, mode, sd)
+                where = {"component": name, "seed_given_as": "random_seed=%d" % sd if mode == "int" else "random_seed_generator=RandomSeedGenerator(%d)" % sd}
+                clause = (CL11_INT if mode == "int" else CL11_GEN) % name
+                try:
+                    a = run(_seed_kw(mode, sd), _Perturb(5000 + seed), None)
+                except Exception as e:
+                    if not _child:
+                        book.check(clause, False, raised=repr(e)[:300], **where)
+                    continue
                 traces[key] = json.loads(json.dumps(a))
                 if _child:
                     continue
-                where = {"component": name, "seed_given_as": "random_seed=%d" % sd if mode == "int" else "random_seed_generator=RandomSeedGenerator(%d)" % sd}
-                clause = (CL11_INT if mode == "int" else CL11_GEN) % name
                 try:
                     b = run(_seed_kw(mode, sd), _Perturb(1000 + seed), _seed_kw(mode, sd + 1000))
                 except Exception as e:
@@ -1050,9 +1124,8 @@ def monitor_seeded_searchers(tier="quick", seed=0, _child=False):
                     # which ingredient matters?  (diagnostics only)
                     b2 = run(_seed_kw(mode, sd), _Perturb(1000 + seed), None)
                     book.violations[-1]["differs_without_decoy_instance_too"] = bool(a != b2) if book.violations and book.violations[-1].get("clause") == clause else None
-                if mode == modes[0]:
-                    others = [run(_seed_kw(mode, sd + 1 + r), _Perturb(5000 + seed), None) for r in range(2)]
-                    book.check(CL11_DIFF % name, any(o != a for o in others), note="three different seeds give identical traces", trace=_short(a, 200), **where)
+                others = [run(_seed_kw(mode, sd + 1 + r), _Perturb(5000 + seed), None) for r in range(2 if (mode == modes[0] and sd == base_seeds[0]) else 1)]
+                book.check(CL11_DIFF % name, any(o != a for o in others), note="different seeds give identical traces", trace=_short(a, 200), **where)
                 if len(samples) < 4 and mode == "gen":
                     samples.append({"component": name, "seed": where["seed_given_as"], "trace_head": _short(a[:2], 200)})
         if _child:
@@ -1079,5 +1152,5 @@ def monitor_seeded_searchers(tier="quick", seed=0, _child=False):
         "clauses": clauses,
         "violations": book.violations,
         "samples": samples[:4],
-        "summary": "%d seeded components (%s), each constructed and driven under two different states of numpy's and Python's global generators (re-seeded before construction and before every call, decoy instance with another seed interleaved), seed given as random_seed and as random_seed_generator, two more seeds for non-vacuity, second process with another PYTHONHASHSEED; %.0f s" % (len(comps), ", ".join(comps), time.time() - t0),
+        "summary": "%d seeded components (%s), each constructed and driven under two different states of numpy's and Python's global generators (re-seeded before construction and before every call, decoy instance with another seed interleaved), seed given as random_seed and as random_seed_generator, %d base seeds, other seeds for non-vacuity, second process with another PYTHONHASHSEED; %.0f s" % (len(comps), ", ".join(comps), len(base_seeds), time.time() - t0),
     }
